@@ -1066,7 +1066,7 @@ package valid
 //@   let key = ite(needName, "\"" ++ s.Name ++ "\":", "")
 //@   let k = rv.kind(tv)
 //@   let isTime = s.Name == "Time" && s.Type == timeReflectType
-//@   ensures [C20 kv.append] prefixof(old(sb.content(d.buf)) ++ key, sb.content(d.buf))
+//@   ensures [C20 kv.append.slow] prefixof(old(sb.content(d.buf)) ++ key, sb.content(d.buf))
 //@   ensures [C20 kv.string] !isTime && k == 24 ==> sb.content(d.buf) == old(sb.content(d.buf)) ++ key ++ "\"" ++ rv.str(tv) ++ "\""
 //@   ensures [C20 kv.bool] !isTime && k == 1 ==> sb.content(d.buf) == old(sb.content(d.buf)) ++ key ++ ite(rv.bool(tv), "\"true\"", "\"false\"")
 //@   ensures [C20 kv.int] !isTime && isIntKind(k) ==> sb.content(d.buf) == old(sb.content(d.buf)) ++ key ++ decInt(rv.int(tv))
@@ -1076,7 +1076,7 @@ package valid
 //@   ensures [C20 kv.map] !isTime && k == 21 ==> prefixof(old(sb.content(d.buf)) ++ key ++ "{", sb.content(d.buf)) && suffixof("}", sb.content(d.buf)) && len(sb.content(d.buf)) >= len(old(sb.content(d.buf))) + len(key) + 2
 //@   loop#0 invariant prefixof(old(sb.content(d.buf)) ++ key ++ "[", sb.content(d.buf))
 //@   loop#0 exhaustive [C20 dump.allelems]
-//@   loop#1 invariant prefixof(old(sb.content(d.buf)) ++ key ++ "{", sb.content(d.buf))
+//@   loop#1 invariant [C20 dump.prefix.slow] prefixof(old(sb.content(d.buf)) ++ key ++ "{", sb.content(d.buf))
 //@   loop#1 exhaustive [C20 dump.allentries]
 //@   requires ds.ok(d) && rv.valid(tv)
 //@   modifies sb.content(d.buf), sb.nw(d.buf), d.numBytes
